@@ -363,6 +363,148 @@ theorem cli_selection_exact (us : List Str) (acc : Str → Bool × Lang) (cwd pa
   rw [hfun]
   exact lister_exact _ acc path node hp
 
+/-! ### `--file-filter=<str>`, de-duplication, and the step from `argv` to the values -/
+
+/-- hypothesis on a `--file-filter` value (it reaches the matcher verbatim): as for `-i` -/
+def FilterOk (f : Str) : Bool :=
+  isAbsolute f || isRelativePattern f || CanonDomain (rawOf .unix f []).1 (rawOf .unix f []).2
+
+/-- **`--file-filter`**: `CmdLineParser::filterFiles` keeps exactly the files the documented rule selects for one of the
+    filters (file mode regular, patterns relative to the current directory) -/
+theorem file_filter_eq_rule (ffs : List Str) (cwd : Str) (files : List (Str × Lang)) (hcwd : isAbsolute cwd = true)
+    (hff : ∀ f ∈ ffs, FilterOk f = true) :
+    filterFiles ffs cwd files =
+      files.filter (fun x => ffs.any (fun f => pathMatchSpecB .unix .regular f x.1 cwd)) := by
+  unfold filterFiles
+  apply List.filter_congr
+  intro x _
+  simp only [pathMatchList]
+  have key : ∀ l : List Str, (∀ f ∈ l, FilterOk f = true) →
+      l.any (fun pattern => pathMatch .fixed .unix .regular pattern x.1 cwd) =
+        l.any (fun f => pathMatchSpecB .unix .regular f x.1 cwd) := by
+    intro l
+    induction l with
+    | nil => intro _; rfl
+    | cons f l ih =>
+      intro hl
+      have h1 : pathMatch .fixed .unix .regular f x.1 cwd = pathMatchSpecB .unix .regular f x.1 cwd := by
+        rw [Bool.eq_iff_iff, Cppcheck.PathMatch.pathMatchSpecB_iff]
+        refine Cppcheck.PathMatch.pathMatch_eq_spec .unix .regular f x.1 cwd ?_ ?_
+          (fun _ => fastPathOk_unix _ cwd (Or.inl hcwd))
+        · unfold rawPattern
+          have hf := hl f (by simp)
+          by_cases h1 : isRelativePattern f = true
+          · simp only [h1, if_true]; exact canonDomain_of_absolute cwd _ hcwd
+          · simp only [h1, Bool.false_eq_true, if_false]
+            by_cases h2 : isAbsolute f = true
+            · exact canonDomain_of_absolute _ [] h2
+            · simp only [FilterOk, Bool.or_eq_true] at hf
+              rcases hf with (h | h) | h
+              · exact absurd h h2
+              · exact absurd h h1
+              · exact h
+        · unfold rawPath
+          by_cases h1 : isAbsolute x.1 = true
+          · simp only [h1, if_true]; exact canonDomain_of_absolute _ [] h1
+          · simp only [h1, Bool.false_eq_true, if_false]; exact canonDomain_of_absolute cwd _ hcwd
+      simp only [List.any_cons, h1, ih (fun g hg => hl g (by simp [hg]))]
+  exact key ffs hff
+
+/-- **de-duplication**: the first entry for every file (key = its absolute path) stays, in the given order, and
+    nothing else is removed -/
+theorem cli_dedup_spec (key : Str → Str) (l : List (Str × Lang)) :
+    (dedupBy key l).Sublist l ∧ ((dedupBy key l).map (fun f => key f.1)).Nodup ∧
+    (∀ x ∈ l, ∃ y ∈ dedupBy key l, key y.1 = key x.1) ∧
+    ((l.map (fun f => key f.1)).Nodup → dedupBy key l = l) :=
+  ⟨dedupBy_sublist key l, dedupBy_nodup key l, dedupBy_complete key l, dedupBy_of_nodup key l⟩
+
+/-- **from `argv` to the values** (the argument loop, one equation per form it accepts) -/
+theorem splitArgs_path (a : Str) (rest : List Str) (h : hd a ≠ '-') :
+    splitArgs (a :: rest) = (splitArgs rest).map (fun r => { r with paths := a :: r.paths }) := by
+  have h' : (hd a != '-') = true := by simpa using h
+  rw [splitArgs.eq_def]
+  simp only [h', if_true]
+
+theorem splitArgs_i_separate (v : Str) (rest : List Str) (h : hd v ≠ '-') :
+    splitArgs (['-', 'i'] :: v :: rest) =
+      (splitArgs rest).map (fun r => if v.isEmpty then r else { r with ignored := v :: r.ignored }) := by
+  have h1 : (hd v == '-') = false := by simpa using h
+  have h2 : (hd ['-', 'i'] != '-') = false := by decide
+  rw [splitArgs.eq_def]
+  simp only [h2, Bool.false_eq_true, if_false, beq_self_eq_true, if_true, h1]
+
+theorem splitArgs_i_joined (v : Str) (rest : List Str) (hv : v ≠ []) :
+    splitArgs (('-' :: 'i' :: v) :: rest) = (splitArgs rest).map (fun r => { r with ignored := v :: r.ignored }) := by
+  have h2 : (hd ('-' :: 'i' :: v) != '-') = false := by simp [hd]
+  have h3 : (('-' :: 'i' :: v) == ['-', 'i']) = false := by simp [hv]
+  have h4 : (['-', 'i'].isPrefixOf ('-' :: 'i' :: v)) = true := by simp [List.isPrefixOf]
+  rw [splitArgs.eq_def]
+  simp only [h2, h3, h4, Bool.false_eq_true, if_false, if_true, List.drop_succ_cons, List.drop_zero]
+
+theorem splitArgs_filter (f : Str) (rest : List Str) (h1 : f ≠ ['-']) (h2 : f ≠ ['+']) :
+    splitArgs ((fileFilterPrefix ++ f) :: rest) = (splitArgs rest).map (fun r => { r with filters := f :: r.filters }) := by
+  have e1 : (hd (fileFilterPrefix ++ f) != '-') = false := by simp [fileFilterPrefix, hd]
+  have e2 : ((fileFilterPrefix ++ f) == ['-', 'i']) = false := by simp [fileFilterPrefix]
+  have e3 : (['-', 'i'].isPrefixOf (fileFilterPrefix ++ f)) = false := by simp [fileFilterPrefix, List.isPrefixOf]
+  have e4 : fileFilterPrefix.isPrefixOf (fileFilterPrefix ++ f) = true := by simp [fileFilterPrefix, List.isPrefixOf]
+  have e5 : (fileFilterPrefix ++ f).drop 14 = f := by simp [fileFilterPrefix]
+  have e6 : (f == ['-'] || f == ['+']) = false := by simp [h1, h2]
+  rw [splitArgs.eq_def]
+  simp only [e1, e2, e3, e4, e5, e6, Bool.false_eq_true, if_false, if_true]
+
+/-- what `parseFromArgs` hands on: the `-i` values and the path names normalised, the filters verbatim -/
+theorem parseIgnoreArgs_values (args : List Str) (a : CliArgs) (hs : splitArgs args = some a) (hp : a.paths ≠ []) :
+    parseIgnoreArgs args = some (a.ignored.map normalizeIgnored, a.filters, a.paths.map normalizeIgnored) := by
+  have : a.paths.isEmpty = false := by cases h : a.paths <;> simp_all
+  simp [parseIgnoreArgs, hs, this]
+
+/-- the selection the documentation describes for `cppcheck [-i u]… [--file-filter=f]… path…` in the directory `cwd`:
+    every path name listed by the rule for the `-i` patterns as written, the filters applied by the rule, duplicates dropped -/
+def ruleListing (us : List Str) (cwd p : Str) (node : Option Tree) : List (Str × Lang) :=
+  match node with
+  | none => []
+  | some n =>
+    if p = [] then []
+    else sortFiles (selected (fun q m => us.any (fun u => userIgnoreSpecB m u q cwd)) (acceptFile []) (correctedPath p) n)
+
+def ruleSelect (a : CliArgs) (cwd : Str) (resolve : Str → Option Tree) : Option (List Str) :=
+  let resolved := (a.paths.map normalizeIgnored).flatMap (fun p => ruleListing a.ignored cwd p (resolve p))
+  if resolved.isEmpty then none
+  else
+    let files := if a.filters.isEmpty then resolved
+      else resolved.filter (fun x => a.filters.any (fun f => pathMatchSpecB .unix .regular f x.1 cwd))
+    if files.isEmpty then none else mapSpath (dedupBy (absKey cwd) files)
+
+/-- **the whole command line** (`-i`, `--file-filter`, several path names): the model of `parseFromArgs` +
+    `fillSettingsFromArgs` (this is the function the driver executes, op `clisel`) selects exactly what the documented
+    rules select for the values as the user wrote them -/
+theorem cli_select_exact (args : List Str) (a : CliArgs) (cwd : Str) (resolve : Str → Option Tree)
+    (hs : splitArgs args = some a) (hp : a.paths ≠ []) (hcwd : isAbsolute cwd = true)
+    (hus : ∀ u ∈ a.ignored, UserPatternOk u = true) (hff : ∀ f ∈ a.filters, FilterOk f = true) :
+    cliSelect args cwd resolve = ruleSelect a cwd resolve := by
+  unfold cliSelect ruleSelect
+  rw [parseIgnoreArgs_values args a hs hp]
+  simp only []
+  have hl : ∀ p : Str,
+      (addFiles (pathMatchList .fixed .unix (a.ignored.map normalizeIgnored) cwd) (acceptFile []) p (resolve p)).2 =
+        ruleListing a.ignored cwd p (resolve p) := by
+    intro p
+    unfold ruleListing
+    cases hr : resolve p with
+    | none =>
+      by_cases hp0 : p = []
+      · subst hp0; rfl
+      · rw [lister_missing _ _ p hp0]
+    | some n =>
+      by_cases hp0 : p = []
+      · subst hp0; simp [lister_no_path]
+      · simp only [hp0, if_false]
+        have h2 : cliIgnored a.ignored cwd = pathMatchList .fixed .unix (a.ignored.map normalizeIgnored) cwd := by
+          funext q m; rfl
+        rw [← h2, cli_selection_exact a.ignored (acceptFile []) cwd p n hcwd hus hp0]
+  simp only [hl]
+  rw [file_filter_eq_rule a.filters cwd _ hcwd hff]
+
 /-- the values reach the matcher exactly as `normalizeIgnored` leaves them, in the order given; empty values are dropped,
     a missing value is an error -/
 example : parseIgnoreArgs ["-i".toList, ".\\g\\".toList, "-i\"a b\"/".toList, "-i".toList, [], "--file-filter=*.c".toList,
